@@ -109,6 +109,7 @@ func c03(p *core.Program, r *core.Report) {
 	r.Rule(tE, "every error-returning call in wkbcommon/wkb/ewkb/wkbhex/ewkbhex (writers, Marshal, value, hex Encode; readers too) propagates its error", 100)
 	errflowRule(p, r, tE, pkgFuncs(p, decoderPkgs...), nil)
 	readerDiscipline(p, r, "reader-discipline")
+	outputIndexCoversLoopsRule(p, r, "output-index-covers-loops")
 
 	// ---------- SRID
 	const tS = "srid-mustpass"
